@@ -28,6 +28,8 @@ def run(ctx):
     if ctx.only is None:
         if not stats.get("ev_finishsync") or not stats.get("ev_startsync"):
             raise vlib.Infra("vacuous run: no state sync hand-over recorded")
+        if not stats.get("mid_health_probes"):
+            raise vlib.Infra("vacuous run: no HealthCheck probe inside FinishStateSync recorded")
         ctx.cov["finish_between_transitive_rejections_scenarios"] = races
     vlib.report_failures(ctx, fails, S.describe)
     ctx.cov["rule"] = ("tv: seeded engine schedules with dynamic state sync: VM started mid-sync (optionally StartStateSync on the last "
